@@ -71,7 +71,32 @@ func (c *cluster) tplLagSnap(rt *rapid.T) {
 	// keepHeld: the parked snapshot request outlives the installation (its state
 	// machine request is only sent afterwards)
 	keepHeld := holdPoint == "snap.begin" && rapid.Bool().Draw(rt, "keepHeld")
-	if rapid.IntRange(0, 2).Draw(rt, "heldLocalSnap") == 0 {
+	// staleReqOnNonvoter: the same on a node that does not vote, so that it does not
+	// campaign while cut off and nothing but the snapshot reaches it afterwards
+	forceHeld := false
+	if r := c.rf(ldr); r != nil && !c.blackbox && keepHeld && rapid.Bool().Draw(rt, "staleReqOnNonvoter") {
+		var nv uint64
+		for _, id := range flrs {
+			if nd, ok := r.configs.Latest.Nodes[id]; ok && !nd.Voter && nd.Action == None {
+				nv = id
+			}
+		}
+		if nv == 0 && r.configs.IsCommitted() {
+			for _, id := range flrs {
+				if _, ok := r.configs.Latest.Nodes[id]; !ok {
+					nv = id
+					c.step(vAct{A: "cfg", N: ldr, M: nv, S: "addnv"})
+					c.step(vAct{A: "adv", T: 2000})
+					break
+				}
+			}
+		}
+		if nv != 0 && c.anyLeader() == ldr {
+			lag, forceHeld = []uint64{nv}, true
+			c.stats.class("tpl-lagsnap-stale-request-on-nonvoter")
+		}
+	}
+	if forceHeld || rapid.IntRange(0, 2).Draw(rt, "heldLocalSnap") == 0 {
 		held = true
 		c.step(vAct{A: "hold", N: lag[0], S: holdPoint})
 		c.step(vAct{A: "snap", N: lag[0], K: 0})
